@@ -2,8 +2,10 @@ package checks
 
 import (
 	"fmt"
+	"runtime"
 	"strings"
 	"sync"
+	"sync/atomic"
 	"testing"
 	"time"
 
@@ -552,6 +554,101 @@ func (r *splitMix) next() uint64 {
 	return z ^ (z >> 31)
 }
 
+// firstWalksCase: several connections walk to the same, never walked entry at
+// the same moment (all are held inside the backend's Walk and released
+// together). The fids they bind denote one path: a write-class call through
+// one of them must exclude read-class calls through all the others.
+type firstWalksCase struct {
+	Native  bool `json:"native_walkgetattr"`
+	Walkers int  `json:"walkers"`
+	Round   int  `json:"round"` // selects the (fresh) entry
+}
+
+func runFirstWalksCase(c firstWalksCase) *fail {
+	fs := memfs.New(memfs.Options{NativeWalkGetAttr: c.Native, Monitor: true})
+	populateCC(fs.Tree)
+	srv := p9.NewServer(fs)
+	var ss []*peers.Session
+	defer func() {
+		fs.ClearGates()
+		for _, s := range ss {
+			s.Close(5 * time.Second)
+		}
+	}()
+	dirs := []string{"kdA", "kdB", "kdX"}
+	names := []string{"wA", "wB", "vA", "vB", "rA", "rB"}
+	dir, name := dirs[c.Round%len(dirs)], names[(c.Round/len(dirs))%len(names)]
+	desc := fmt.Sprintf("%+v (%s/%s)", c, dir, name)
+	for i := 0; i < c.Walkers; i++ {
+		s := peers.Start(srv)
+		ss = append(ss, s)
+		if _, err := s.Version(64<<10, "9P2000.L.Google.7"); err != nil {
+			return failf("harness-version", "HARNESS-ERROR %v", err)
+		}
+		for j, m := range []*refcodec.Msg{tAttach(0, nofid, ""), tWalk(0, 1, "P", dir)} {
+			if r, err := s.Call(withTag(m, uint16(1+j))); err != nil || r.Type == refcodec.Rlerror {
+				return failf("harness-setup", "HARNESS-ERROR %s: %v %v", m, r, err)
+			}
+		}
+	}
+	// the walks line up at the very end of the backend call (spin barrier) and
+	// return into the server at the same instant
+	var arrived int64
+	var barrierBroken int32
+	fs.LateHook = func(cl *memfs.Call) {
+		if len(cl.Names) != 1 || cl.Names[0] != name {
+			return
+		}
+		atomic.AddInt64(&arrived, 1)
+		start := time.Now()
+		for spins := 0; atomic.LoadInt64(&arrived) < int64(c.Walkers); spins++ {
+			if spins > 200 {
+				runtime.Gosched()
+			}
+			if spins%1024 == 0 && time.Since(start) > 10*time.Second {
+				atomic.StoreInt32(&barrierBroken, 1)
+				return
+			}
+		}
+	}
+	for _, s := range ss {
+		s.Send(refcodec.Encode(withTag(tWalk(1, 2, name), 10)))
+	}
+	for i, s := range ss {
+		raw, err := s.Recv(20 * time.Second)
+		if err != nil {
+			return failf("no-reply:first-walks", "walk %d was not answered: %v (%s)", i, err, desc)
+		}
+		if _, isErr := refcodec.Errno(raw); isErr {
+			return failf("harness-walk", "HARNESS-ERROR walk %d => %x (%s)", i, raw, desc)
+		}
+	}
+	fs.LateHook = nil
+	if atomic.LoadInt32(&barrierBroken) != 0 {
+		return failf("harness-barrier", "HARNESS-ERROR the walks did not meet inside the backend (%s)", desc)
+	}
+	// SetAttr through the first fid is held; GetAttr through every other fid must wait
+	g2 := memfs.NewGate(func(cl *memfs.Call) bool { return cl.Op == "SetAttr" })
+	fs.AddGate(g2)
+	ss[0].Send(refcodec.Encode(withTag(tSetattr(2, 1, 0o600, 0), 20)))
+	select {
+	case <-g2.Entered:
+	case <-time.After(20 * time.Second):
+		return failf("harness-gate", "HARNESS-ERROR SetAttr never reached the backend (%s)", desc)
+	}
+	for _, s := range ss[1:] {
+		s.Send(refcodec.Encode(withTag(tGetattr(2), 21)))
+	}
+	time.Sleep(40 * time.Millisecond)
+	g2.Release()
+	for _, an := range fs.Anomalies() {
+		if an.Kind == "overlap" {
+			return failf(an.Sig+":after-concurrent-first-walks", "overlap: %s entered while %s was held inside the backend; the fids were bound by %d walks to a never walked entry released from the backend at the same moment (%s)", an.B, an.A, c.Walkers, desc)
+		}
+	}
+	return nil
+}
+
 // racedWalkCase: a multi-component walk is overtaken, between two of its
 // steps, by a rename that replaces the entry its last component names. The
 // fid the walk binds and a fid bound afterwards denote the same path; a
@@ -721,6 +818,7 @@ func init() {
 		registerReplay("C07/pairs", func(c pairCase) *fail { return runPairCase(c, nil) })
 		registerReplay("C07/open-once", runOpenOnceCase)
 		registerReplay("C07/raced-walk", runRacedWalkCase)
+		registerReplay("C07/first-walks", runFirstWalksCase)
 		registerReplay("C07/workload", func(c workloadCase) *fail { f, _ := runWorkload(c, true); return f })
 	})
 }
@@ -775,6 +873,20 @@ func TestC07(t *testing.T) {
 	}
 	h.Exhaustive(fmt.Sprintf("every ordered pair of %d operations x %d relations (x 2 backends in the thorough tier)", len(ops), len(ccRelations)))
 
+	// concurrent first walks to one entry
+	for rep := 0; rep < env.Pick(640, 6400)/env.NShards+1; rep++ {
+		// (with a backend that has WalkGetAttr the path node is looked up exactly once per step)
+		c := firstWalksCase{Native: rep%4 != 0, Walkers: 4 + rep%5, Round: rep*env.NShards + env.Shard}
+		f := runFirstWalksCase(c)
+		h.Case(evid.HashJSON(c), true, "concurrent-first-walks")
+		if f != nil && strings.HasPrefix(f.Sig, "harness-") {
+			t.Errorf("HARNESS-ERROR %s", f.Msg)
+			continue
+		}
+		if h.report("first-walks", f, c) {
+			return
+		}
+	}
 	// a walk overtaken by a rename-over between two of its steps
 	if env.Shard == 1%env.NShards {
 		for _, native := range []bool{false, true} {
